@@ -319,7 +319,22 @@ func (sc *TransferScenario) horizon() time.Duration {
 	for _, o := range sc.Net.Outages {
 		last = max(last, o.ToMS)
 	}
-	return time.Duration(last+2*idle+10000) * time.Millisecond
+	// plus the time the data itself needs at the lowest rate congestion and flow control guarantee: with persistent
+	// reordering (jitter larger than the packet spacing keeps declaring packets lost) the window stays at its minimum
+	// of two packets per round trip; a small flow-control window caps it further
+	perRTT := int64(2400)
+	for _, v := range sc.Cfg.Win {
+		if v > 0 && int64(v) < perRTT {
+			perRTT = int64(v)
+		}
+	}
+	var total int64
+	for _, st := range sc.Streams {
+		total += int64(st.Size + st.Back)
+	}
+	rttMS := 2*(sc.Net.LatencyUS+sc.Net.JitterUS)/1000 + 30
+	xfer := total / perRTT * rttMS * 2
+	return time.Duration(last+2*idle+10000+xfer) * time.Millisecond
 }
 
 func runTransfer(t *testing.T, ksc KScenario, res *KResult) {
@@ -675,14 +690,17 @@ func judgeFailure(w *World, cfg *WConfig, netc *WNet, nExplicit int, res *KResul
 			res.Probe("idle-timeout")
 			// legitimate only if that endpoint was starved of undamaged datagrams for its idle period
 			idle := time.Duration(min(nzIdle(cfg.IdleMS[0]), nzIdle(cfg.IdleMS[1]))) * time.Millisecond
+			evidenceWindow := idle
 			if handshake {
 				// Dial/Accept had not returned yet, but the endpoint itself may already have completed the handshake
-				// (a client does when it sends its Finished): whichever period is shorter is a sound lower bound
+				// (a client does when it sends its Finished): whichever period is shorter is a sound lower bound for
+				// "too early", the longer one is the window in which to look for evidence of a dead path
+				evidenceWindow = max(idle, hsIdle(cfg, side))
 				idle = min(idle, hsIdle(cfg, side))
 			}
 			if gap := time.Duration(w.starvedFor(side, now)); gap < idle-20*time.Millisecond {
 				res.Fail("idle timeout although undamaged datagrams kept arriving", "side %d: last good delivery %v before the failure, idle period %v", side, gap, idle)
-			} else if !w.pathDeadEvidence(now, int64(idle)) {
+			} else if !w.pathDeadEvidence(now, int64(evidenceWindow)) {
 				// nobody was prevented from talking: the endpoints fell silent with work left to do
 				res.Fail("connection idled out with transfers incomplete although the network delivered everything it was given", "side %d: no datagram was lost or damaged during the last idle period (%v) nor just before it", side, idle)
 			}
